@@ -83,7 +83,7 @@ func runMustCheck(p *Program, r *RuleResult) {
 				continue
 			}
 			sc := call.Common().StaticCallee()
-			if sc == nil || !strings.HasPrefix(sc.Name(), "consumeName") {
+			if !p.isConsumeFunc(sc) {
 				continue
 			}
 			for _, u := range *call.Referrers() {
@@ -144,7 +144,7 @@ func runMustCheck(p *Program, r *RuleResult) {
 							}
 						}
 					}
-					if sc := com.StaticCallee(); sc != nil && strings.HasPrefix(sc.Name(), "consumeName") {
+					if p.isConsumeFunc(com.StaticCallee()) {
 						for _, a := range com.Args {
 							if inD(a) {
 								return true // handed to the self-aware consumer: its result is a source of its own
